@@ -590,6 +590,12 @@ func (s *sim) opIfaceState() {
 	}
 	s.m.ifState[name] = st
 	s.sut.ps.absent[name] = st == ifacemonitor.StateNotPresent
+	if st == ifacemonitor.StateUp && r.Src.Chance(150, "iface_up_but_procsys_missing") {
+		// the monitor reported the interface up but its /proc/sys directory is not there (not yet
+		// visible, or the interface is already gone again): writes fail with ENOENT until a later event
+		s.sut.ps.absent[name] = true
+		r.Logf("  /proc/sys entries of %s are missing", name)
+	}
 	s.deliver(intdataplane.NewIfaceStateUpdate(name, st, 10+idxOf(all, name)))
 }
 
